@@ -228,7 +228,9 @@ def main():
             stocks = [c["END_OF_MONTH_STOCKS"][mn] for mn in MONTHS]
             want_sf = (stocks[stock_idx[5]] * c["PERCENT_STORED_FOOD_TO_USE"] / 100 - min(stocks) * c["RATIO_STOCKS_UNTOUCHED"]) * 4e6 / 1e9 * (
                 1 - c["WASTE_DISTRIBUTION"]["CROPS"] / 100)
-            if not close(real["stored_food"], want_sf):
+            # (a difference of two terms: the tolerance is relative to the terms, not to their difference, which may cancel to ~0)
+            sf_scale = (abs(stocks[stock_idx[5]] * c["PERCENT_STORED_FOOD_TO_USE"] / 100) + abs(min(stocks) * c["RATIO_STOCKS_UNTOUCHED"])) * 4e6 / 1e9
+            if not abs(real["stored_food"] - want_sf) <= 1e-9 * max(abs(want_sf), sf_scale):
                 bad("C08:EqualsDocumented:stored_food", dict(where=label, got=real["stored_food"], want=want_sf))
             # C09 relations
             if cfg["reloc"] and np.any(real["crops_grown_reloc"] < real["crops_grown_plain"] * (1 - 1e-12) - 1e-300):
@@ -252,7 +254,7 @@ def main():
                     for name in ("crops", "greenhouse", "fish", "grass", "feed", "biofuel"):
                         if not close(real2[name], np.asarray(real[name]) * kf, 1e-9):
                             bad("%s:LinearInBaseline:%s" % ("C09" if name == "crops" else "C08", name), dict(where=label, factor=kf))
-                    if not close(real2["stored_food"], real["stored_food"] * kf):
+                    if not abs(real2["stored_food"] - real["stored_food"] * kf) <= 1e-9 * max(abs(real["stored_food"] * kf), sf_scale * kf):
                         bad("C08:LinearInBaseline:stored_food", dict(where=label, factor=kf))
     json.dump(rep, open(sys.argv[2], "w"))
 
